@@ -390,13 +390,21 @@ func (sc *Scenario) runWith(warm bool, warmFile *recipe.File) (*Outcome, error) 
 		return o, nil
 	}
 	o.Src = src
-	w := &impcheck.World{Real: sc.Real(m), Markers: o.Markers, LocalPath: m.Local, HasLocal: true}
-	rep, err := impcheck.Analyze(src, w)
+	rep, err := analyse(sc, m, o, src)
 	if err != nil {
-		return o, fmt.Errorf("%v\n--- output ---\n%s", err, src)
+		return o, err
 	}
 	o.Rep = rep
 	return o, nil
+}
+
+func analyse(sc *Scenario, m *Model, o *Outcome, src []byte) (*impcheck.Report, error) {
+	w := &impcheck.World{Real: sc.Real(m), Markers: o.Markers, LocalPath: m.Local, HasLocal: true}
+	rep, err := impcheck.Analyze(src, w)
+	if err != nil {
+		return nil, fmt.Errorf("%v\n--- output ---\n%s", err, src)
+	}
+	return rep, nil
 }
 
 func (o *Outcome) fail(format string, a ...interface{}) error {
